@@ -1292,6 +1292,27 @@ def fam_prefix(cross=False):
                         exp['%s:%s' % (w, dn)] = ['eq', ref_dir_default(dn, prefix)]
                 yield {'fam': 'prefix-subdecoy', 'scn': scn, 'exp': exp, 'reject': 'mustnot',
                        'meta': {'prefix_sources': top_src, 'decoy': decoy, 'decoy_prefix': dv, 'nsrc': len(top_src) + 1}}
+    # ... and neither must `sub:prefix=...` (default_options of the parent, [sub:built-in options] of a machine file, -Dsub:prefix=):
+    # `subp:opt` addresses the option of the subproject; it is not a source of the top-level project's prefix.  What it means for the
+    # subproject (prefix is not per subproject) is not said: Meson may refuse it, and the subproject's view is not observed.
+    for top_src in ([], ['C'], ['M'], ['P'], ['P', 'M'], ['M', 'C']):
+        for decoy in ('PS', 'MS', 'CS'):
+            for dv in ('/usr', '/opt/q'):
+                scn = new_scn(cross, True)
+                pp = {}
+                for s in top_src:
+                    put(scn, s, 'prefix', '/opt/px')
+                    pp[s] = '/opt/px'
+                put(scn, decoy, 'prefix', dv)
+                prefix = ref_top(pp, DEFAULT_PREFIX)
+                scn['obs'] = [['top', 'prefix']] + [['top', dn] for dn in SPECIAL_DIRS]
+                exp = {}
+                for w in ('top', 'top2'):
+                    exp[w + ':prefix'] = ['eq', prefix]
+                    for dn in SPECIAL_DIRS:
+                        exp['%s:%s' % (w, dn)] = ['eq', ref_dir_default(dn, prefix)]
+                yield {'fam': 'prefix-subdecoy', 'scn': scn, 'exp': exp, 'reject': 'may',
+                       'meta': {'prefix_sources': top_src, 'decoy': decoy, 'decoy_prefix': dv, 'nsrc': len(top_src) + 1}}
 
 
 # ------------------------------------------------------------------------------------------------------------
@@ -1620,6 +1641,11 @@ def classify(case, okey, e, got):
                             got == BUILDTYPE_TABLE.get(dict(scn['C'])['buildtype'], (None, None))[idx]:
                         return 'C07:buildtype:command-line-explicit-value-overwritten-by-buildtype'
                     break
+    if fam in ('prefix-subdecoy', 'prefix-subdecoy-flag') and case['meta'].get('decoy') in ('PS', 'MS', 'CS') and \
+            (name == 'prefix' or name in SPECIAL_DIRS):
+        # sub:prefix=... given by the parent's default_options (PS), a machine file (MS) or the command line (CS)
+        return 'C07:prefix:subproject-addressed-prefix:from-%s:%s' % (
+            case['meta']['decoy'], 'build-prefix-changed' if name == 'prefix' else 'parent-directory-options-changed')
     if fam in ('prefix-subdecoy', 'prefix-subdecoy-flag') and where == 'top2' and name in SPECIAL_DIRS and \
             got == ref_dir_default(name, case['meta']['decoy_prefix']):
         srcs = ''.join(case['meta'].get('prefix_sources', []))
@@ -1713,6 +1739,8 @@ def judge(case, res, tier):
         if rj == 'mustnot':
             probs.append(('C07:rejects-valid:%s:%s' % (fam, meta.get('name', meta.get('kind', '-'))),
                           'valid configuration rejected at %s: %s' % (res['rejected'][0], res['rejected'][1])))
+        elif rj == 'may':
+            st['skipped'] += 1          # the docs do not say whether this input is accepted at all
         else:
             st['rejected_invalid'] += 1
         return probs, st
@@ -2668,7 +2696,7 @@ def main():
               'earlier command either outcome is accepted (weak), as for a lower-priority source')
     ck.assume('tier A replicates the two inline cross-build filtering steps of Environment.__init__; tier B runs the real thing')
     ck.assume('unspecified and skipped: unprefixed opt=value for an option only the subproject declares; integer/free-array option without value:; '
-              'repeated array elements; build.* options in native builds; sub:prefix; abs paths inside prefix; deprecated-option remapping')
+              'repeated array elements; build.* options in native builds; what sub:prefix means for the subproject (it must not change the build\'s prefix); abs paths inside prefix; deprecated-option remapping')
     ck.assume('the declared default: Build-options.md gives the default of an option without value: for string (empty), boolean (true), '
               'combo (first choice), array with choices (all choices); for integer and for an array without choices it is silent: the '
               'value is then only required to be a valid one; feature without value: is taken to be auto; a value: that is the empty '
